@@ -465,6 +465,10 @@ class PoolManager(RequestMethods):
             kw["headers"] = HTTPHeaderDict(kw["headers"])._prepare_for_method_change()
 
         retries = kw.get("retries")
+        if retries is None:
+            # No per-request policy: the one this manager was configured with
+            # (and that its pools use) also governs cross-host redirects.
+            retries = self.connection_pool_kw.get("retries")
         if not isinstance(retries, Retry):
             retries = Retry.from_int(retries, redirect=redirect)
 
